@@ -343,6 +343,15 @@ func init() {
 		fr.p.preemptPoint(fr.th)
 		return nil
 	})
+	// strings.Builder{addr *Builder; buf []byte}: String() reinterprets buf via unsafe
+	reg("(*strings.Builder).String", func(fr *frame, fn *ssa.Function, a []Value) Value {
+		st := structCell(a[0], "strings.Builder.String")
+		buf, _ := st[1].(SliceV)
+		return bytesStr(buf)
+	})
+	reg("(*strings.Builder).copyCheck", func(fr *frame, fn *ssa.Function, a []Value) Value { return nil })
+	reg("internal/abi.NoEscape", func(fr *frame, fn *ssa.Function, a []Value) Value { return a[0] })
+	reg("internal/abi.Escape", func(fr *frame, fn *ssa.Function, a []Value) Value { return a[0] })
 	reg("runtime.KeepAlive", func(fr *frame, fn *ssa.Function, a []Value) Value { return nil })
 	reg("runtime.SetFinalizer", func(fr *frame, fn *ssa.Function, a []Value) Value { return nil })
 	reg("reflect.DeepEqual", func(fr *frame, fn *ssa.Function, a []Value) Value {
